@@ -64,7 +64,11 @@ def _frames(buf):
         n, = struct.unpack('!i', data[k:k + 4])
         if k + 4 + n > len(data):
             break
-        out.append(pickle.loads(data[k + 4:k + 4 + n]))
+        try:
+            out.append(pickle.loads(data[k + 4:k + 4 + n]))
+        except Exception:
+            out.append(('?', 'undecodable remainder'))   # torn by a kill
+            break
         k += 4 + n
     return out
 
@@ -529,7 +533,9 @@ class Env:
         with vos.as_process(pid):
             msg = pickle.loads(self.pool._inqueue.get_payload())
         if msg is None:
-            self._exit(w, 1, notice=True)       # sentinel: SystemExit(1)
+            # sentinel: SystemExit raised by receive(), not through the
+            # worker's exit() wrapper -> _do_exit(None) -> status 0 (L1)
+            self._exit(w, 0, notice=True)
             return
         typ, (job, i, fun, args, kwargs) = msg
         w.task = (job, i, fun, args, kwargs)
